@@ -276,10 +276,23 @@ func (st *ex6State) op(kind string, fn func(o *ex6Op)) *ex6Op {
 }
 
 func (st *ex6State) workload(cl *nclient6.Client, w int) {
+	st.round(cl, w, true)
+	if st.tape.Coin(1, 4) {
+		// a second acquisition on the same client object
+		st.s.Probe("second-acquisition-on-the-same-client")
+		st.round(cl, st.tape.Choose(2), false)
+	}
+}
+
+func (st *ex6State) round(cl *nclient6.Client, w int, first bool) {
 	t := st.tape
 	ctx := context.Background()
 	// phase of the wall clock: some exchanges start just before a whole second
-	sleep(pick(t, 0, 0, 0, ms(995), ms(999), ms(1000)-st.T/2), siteEx6Main)
+	if first {
+		sleep(pick(t, 0, 0, 0, ms(995), ms(999), ms(1000)-st.T/2), siteEx6Main)
+	} else {
+		sleep(pick(t, 0, ms(1), st.T), siteEx6Main)
+	}
 	if w == 0 {
 		a := st.op("solicit", func(o *ex6Op) { o.ret, o.err = cl.Solicit(ctx, st.mods()...) })
 		if a.err != nil || a.ret == nil {
